@@ -4,24 +4,24 @@ import json, os
 V = os.path.dirname(os.path.dirname(os.path.abspath(__file__)))
 TECH = "Lean 4 theorems about a hand-written executable model + differential correspondence (Rust harness vs Lean driver, f64 bit-level and exact rational) + exact relational oracles on the implementation"
 P = {
- "C01": ("proof", "wrap_trace (any inner view, any core, any finite input): chain = inner alone then core over Echo fed its outputs; mapV/binop lemmas; denote_* cover every tree of the catalogue syntax. Tie: 216 chain-vs-decomposition runs bitwise at f64 on the implementation, binop relations, tree pattern correspondence.", "4 C01"),
- "C02": ("proof", "incremental state = batch statistic of exactly lastN N, by invariant over the op list, for Sma, Cumulative, Min, Max, WelfordOnline (mean, variance, last), Vst, Vsct; HLNormalizer, Roc, BinaryEntropy are decided by the exact spec-equality runs only (see level_note).", "4 C02"),
- "C03": ("proof", "suffix_determines for Sma, Cumulative, Min, Max, WelfordOnline, Vst, Vsct as corollaries of C02; the other views of the statement by exact two-history runs on the implementation at Q.", "4 C03"),
- "C04": ("proof", "Sma and Ema: interval, constant, monotone, affine; Ema = its recursion for every input; default weight in (0,1]. Alma: exact spec-equality and relational runs only.", "4 C04"),
- "C05": ("proof", "on the statement's definitions (Spec.rsi / myRsi): negation symmetry, monotone-window values, formula, ranges; state machine = definition decided by exact spec-equality runs (Lean proof of that step pending).", "4 C05"),
- "C06": ("proof", "on the statement's definitions: Kendall tau = ±1 on strictly monotone windows, sign flip, order-only, CoG constant window; K1 witness proved (CTI of 1,2,4 ≠ 1). state machine = definition by exact spec-equality runs.", "4 C06"),
- "C07": ("proof", "exact-arithmetic ranges: Min ≤ Sma,newest ≤ Max; GTE/LTE; Drawdown ∈ [0,1) non-decreasing; Tanh, Welford ≥ 0 at ℝ; Rsi, MyRSI, HLN on their definitions; K2 witness. f64 'few ulps' clause measured (known findings K3, K5).", "4 C07"),
- "C08": ("proof", "first-ready index and stability for Sma, Ema, Cumulative, Min, Max, Welford/Vst/Vsct, WelfordRolling, LnReturn from the characterisations; wrap_idle; binop readiness. All 38 views + chains by readiness relations on the implementation and pattern correspondence.", "4 C08"),
- "C09": ("proof", "Ema: BIBO with length-independent bound and geometric fading memory for every N; generic one-pole lemma; pole radius < 1 for both smoothers for every N (ℝ). Two-pole kernel bounds and normalised outputs: long bounded-stream / common-tail runs at f64 (partial).", "4 C09"),
- "C10": ("proof", "superposition for Sma, Cumulative, Ema (all a, b) + DC gain; the other five linear views by exact three-run relations on the implementation at Q.", "4 C10"),
- "C11": ("proof", "SuperSmoother = batch re-evaluation of its difference equation with the stated coefficients (register shuffling = plain delays), |4.4422 − 1.414π| < 2e-5; other eight views by exact spec-equality runs (implementation at Q vs Lean specs) for N from each minimum to 50.", "4 C11"),
- "C12": ("proof", "homogeneity of Sma/Ema/Cumulative, Min/Max under increasing maps and the Min/−Max swap, LnReturn and Drawdown scale invariance; remaining views by exact two-run relations at Q.", "4 C12"),
- "C13": ("proof", "WelfordRolling mean/variance/last, Drawdown (positive streams), LnReturn (non-zero streams) equal their batch definitions for every history.", "4 C13"),
- "C14": ("proof", "the nine pointwise equations and statelessness, for any scalar type (so bit-exact at Float).", "4 C14"),
- "C15": ("proof", "NoPanic for 14 cores for every accepted N and every stream, constructor rejections, closure under wrap/mapV (chains of any depth); all 38 views N=1..64 by no-panic runs on both builds and predicted-panic correspondence.", "4 C15"),
- "C16": ("other", "f64/f32 vs exact Q on the same Rust generic code, thresholds of the statement (measurement); exact half proved: no-drift invariants and flat-window answers. Known findings K3/K4.", "4 C16"),
- "C17": ("proof", "purity of last, clone independence, determinism for arbitrary interleavings (exec_main) for every view; tie: twin runs with repeated last()/clones on the implementation, source audit for interior mutability.", "4 C17"),
- "C18": ("proof", "size ≤ N for the windowed cores proved, 0 for bufferless cores, additivity along chains of any depth; tie: live heap bytes at L and 4L equal and consistent with the model's size.", "4 C18"),
+ "C01": ("proof", "wrap_trace (ANY inner view, ANY core, any finite input): the chain's answers = the core over Echo fed exactly what the stand-alone inner view reported; wrap_run_fst (every raw input reaches the inner view once, in order); mapV/binop lemmas (value iff both children); denote_* for every tree of the catalogue. Tie: chain-vs-decomposition runs bitwise at f64 on the implementation (all wrappers x inner views incl. relapsing probes, domain-mapping inner views under LnReturn/Drawdown), binop relations, tree pattern correspondence.", "A4 C01"),
+ "C02": ("proof", "state machine = batch statistic over exactly lastN N for EVERY view of the statement (Sma, Cumulative, Min, Max, WelfordOnline mean/variance/last, Vst, Vsct, HLNormalizer, Roc, BinaryEntropy), every N and every history, by invariant over the operation list. Tie: exact spec-equality runs incl. exhaustive small scope (all streams of length 6 over a 3-letter alphabet, N=1,2,3), long histories 10^3..10^5 vs short suffix, outlier-leaves-window (f64), tiny/huge/level units.", "A4 C02"),
+ "C03": ("proof", "suffix-determination proved for all seventeen views of the statement (K = N; N+1 Rsi/MyRSI/Roc non-held; 2N Alma; N+M-1 PFE over Sma(M)). Tie: exact two-history runs, long-prefix runs (10^3..10^5 values), outlier prefixes at f64 for the views that recompute from the window.", "A4 C03"),
+ "C04": ("proof", "Ema = its recursion for every input, Alma = normalised Gaussian weighted mean (alma_eq), Sma; interval / constant / monotone / affine for Sma, Ema and for any positive-weight mean (Alma, weights positive at R); default weight in (0,1]. Tie: exact relations and spec-equality runs.", "A4 C04"),
+ "C05": ("proof", "Rsi and MyRSI state machines = the statement's G/L definitions for every N and history (rsi_eq, myrsi_eq; the D16/D17 clamps are the identity under the invariant); negation symmetry, monotone windows, formula, ranges. Tie: exact spec-equality incl. exhaustive small scope and 10^5-value histories.", "A4 C05"),
+ "C06": ("proof", "CTI = Pearson on a full window, NET = Kendall over all n(n-1)/2 pairs (double loop visits each pair once), CoG formula; +-1 on monotone windows (NET) and on every affine window (CTI, all N>=2); sign flip, order-only, CoG constant; K1: the 'CTI=+1 on any increasing window' clause is refuted by a proved witness.", "A4 C06"),
+ "C07": ("proof", "exact-arithmetic ranges for every view of the statement: Min<=Sma,Alma,newest<=Max; GTE/LTE; Drawdown; Tanh; Welford>=0; Rsi, MyRSI, HLN, NET, CoG, LaguerreRSI, BinaryEntropy, CTI (Cauchy-Schwarz), Vsct (Samuelson), |Fisher|<=ln199 at view level; K2 witness (PFE). f64 'few ulps' clause measured (K5). Tie: exact range relations stand-alone and chained over inner views.", "A4 C07"),
+ "C08": ("proof", "first-ready index + stability for Sma, Ema, Cumulative, Min, Max, Welford/Vst/Vsct, WelfordRolling, LnReturn, Rsi, MyRSI, SuperSmoother, Roofing, Alma, CoG, entropy, LaguerreFilter, NET, CyberCycle, TrendFlex; LaguerreRSI readiness never reverts; one-step ReadyStable from any state for 15 cores and its closure under wrap / Tanh; wrap_idle. Tie: readiness relations at Q, f64 and f32 (zero-heavy streams, negative zeros), pattern correspondence on chains. Finite values at f64/f32 are measured (D18 found here).", "A4 C08"),
+ "C09": ("proof", "BIBO with length-independent bounds for Ema, SuperSmoother, flex smoother, CyberCycle, RoofingFilter (pole inside the unit circle for every N>=2), LaguerreFilter; |TrendFlex|,|ReFlex|<=5; geometric fading memory for Ema, SuperSmoother, CyberCycle, LaguerreFilter, RoofingFilter (cascade of two contracting sections); BIBO composes along chains (chain_bibo, any inner view, any core). Normalised outputs: long common-tail runs at f64 (K8: the clause fails for TrendFlex/ReFlex with N>=445 on constant tails).", "A4 C09"),
+ "C10": ("proof", "superposition for all eight views of the statement; DC gain 1 of the low-pass ones; constant input: SuperSmoother -> c, RoofingFilter -> 0, CyberCycle -> 0 geometrically for all window lengths. Tie: exact three-run relations (incl. chains of linear views, tiny/huge units).", "A4 C10"),
+ "C11": ("proof", "all nine views = batch re-evaluation of their difference equations with the stated coefficients, for every accepted N and every history; EFT and PFE for ANY moving-average view realising a batch function. Tie: exact spec-equality runs (any moving average incl. overshooting ones), outlier runs for PFE.", "A4 C11"),
+ "C12": ("proof", "invariance / homogeneity / negation theorems for every view of the statement (linear filters via superposition; HLN, NET, Vsct, CTI, EFT affine; Rsi, MyRSI, LaguerreRSI, Vst, Roc, CoG, entropy, TrendFlex, ReFlex, LnReturn, Drawdown scale; Min/-Max swap). Tie: exact two-run relations in units 2^+-30..60 and large offsets.", "A4 C12"),
+ "C13": ("proof", "WelfordRolling mean/variance/last, Drawdown, LnReturn equal their batch definitions for every history. Tie: exact spec-equality (incl. Default-constructed views, tiny/level units), long f64 runs.", "A4 C13"),
+ "C14": ("proof", "the nine pointwise equations and statelessness for any scalar type (so bit-exact at Float). Tie: pointwise relations bit for bit against IEEE arithmetic (extreme units, fine tanh grid, Echo on special bit patterns).", "A4 C14"),
+ "C15": ("proof", "NoPanic for every core of the catalogue for every accepted N and every stream (EFT/PFE for any realising average), constructor rejections exactly characterised (incl. Alma's kernel check, fix D18), closure under wrap/mapV/Add/Subtract/Multiply; Divide panics iff the divisor is 0. Tie: no-panic runs on both builds at f64 and f32, predicted-panic correspondence.", "A4 C15"),
+ "C16": ("other", "f64/f32 vs exact Q on the same Rust generic code, thresholds of the statement (measurement, not proof: IEEE rounding is outside the theorems); exact half proved: no-drift invariants and flat-window answers. Known findings K3/K4/K5/K7.", "A4 C16"),
+ "C17": ("proof", "purity of last, clone independence, determinism for arbitrary interleavings for every view tree. Tie: twin runs with repeated last()/clones at systematic moments, clone hops in every other property's jobs, Bracket jobs (same view before/after other scalar types and windows ran in the thread), source audit for interior mutability / globals.", "A4 C17"),
+ "C18": ("proof", "size <= N (resp. a constant) for every windowed core incl. EFT/PFE, 0 for bufferless cores, additivity along chains of any depth. Tie: live heap bytes at L and 4L equal for all views and domain-safe random chains.", "A4 C18"),
 }
 checks = []
 for pid, (cat, text, ref) in sorted(P.items()):
@@ -32,7 +32,7 @@ for pid, (cat, text, ref) in sorted(P.items()):
         "evidence_file": "evidence/%s.json" % pid,
         "replay_cmd_template": "./check replay {path}",
         "engine": "lean-model-correspondence",
-        "level_claimed": {"category": cat, "text": text, "design_ref": "DESIGN.md §" + ref},
+        "level_claimed": {"category": cat, "text": text, "design_ref": "DESIGN.md " + ref},
         "level_note": "Trusted: Lean 4.33 kernel; axioms propext, Classical.choice, Quot.sound only (audited per theorem, no sorry/native_decide); Mathlib; the hand-written model SF/Model tied to /repo by a sampled differential correspondence (Rust harness, exact scalar Q with f64-bridged transcendentals, Lean compiler/runtime, libm); statements/specs as a reading of properties.jsonl. Modelled not verified: VecDeque/Vec as lists, usize as Nat, f64 by Lean Float, derive(Clone) as copy, the allocator. Parts of the statement not yet covered by a theorem are decided by exact runs of the implementation against executable specs and are listed in DESIGN.md.",
         "technique": TECH,
     })
@@ -44,7 +44,7 @@ m = {
  "engines": [{"name": "lean-model-correspondence", "path": "check", "serves_properties": sorted(P),
               "kind_free_text": "Lean 4 project /verif/lean (model, specs, theorems, driver) + Rust harness /verif/harness over /repo + Python orchestrator"}],
  "checks": checks,
- "notes": "fix: commits in /repo are listed in known_findings.json (status fixed); known findings K1-K5 there with stored witnesses.",
+ "notes": "fix: commits in /repo are listed in known_findings.json (status fixed); known findings K1-K8 there with stored witnesses; seeded/ holds 90+ sub-agent changes with their evaluations.",
  "not_applicable": [],
 }
 json.dump(m, open(os.path.join(V, "MANIFEST.json"), "w"), indent=1)
